@@ -28,7 +28,10 @@ def problem_chains(body):
         cur = c
         while True:
             p = pm.get(id(cur))
-            while p is not None and p.get("k") in ("DropTemps", "Use", "Ref") and p.get("e") is cur:
+            while p is not None and ((p.get("k") in ("DropTemps", "Use", "Ref") and p.get("e") is cur) or
+                                     (p.get("k") == "Block" and p.get("expr") is cur and "mac_src" not in p) or
+                                     (p.get("inlined") is cur and p.get("k") in ("Call", "MethodCall"))):
+                # the value of a block is its tail; the value of a call of a later-extracted helper is the value of the helper's body
                 cur = p
                 p = pm.get(id(cur))
             if p is not None and p.get("k") == "MethodCall" and p.get("recv") is cur:
